@@ -310,6 +310,7 @@ func (m *RuleManager) tryCommitPatch(patch *ruleConfigPatch) error {
 
 	ruleList, err := buildRuleList(patch)
 	if err != nil {
+		m.restoreRuleGroups()
 		return err
 	}
 
@@ -318,6 +319,7 @@ func (m *RuleManager) tryCommitPatch(patch *ruleConfigPatch) error {
 	// save updates
 	err = m.savePatch(patch.mut)
 	if err != nil {
+		m.restoreRuleGroups()
 		return err
 	}
 
@@ -325,6 +327,13 @@ func (m *RuleManager) tryCommitPatch(patch *ruleConfigPatch) error {
 	patch.commit()
 	m.ruleList = ruleList
 	return nil
+}
+
+// restoreRuleGroups points the served rules back at the served group configurations after a rejected
+// patch: patch.adjust() has pointed them at the groups of the patch, and the order in which rules are
+// reported depends on the group a rule points at.
+func (m *RuleManager) restoreRuleGroups() {
+	m.ruleConfig.iterateRules(func(r *Rule) { r.group = m.ruleConfig.getGroup(r.GroupID) })
 }
 
 func (m *RuleManager) savePatch(p *ruleConfig) error {
